@@ -64,6 +64,10 @@ def fold_loops(path, stream, abstract=True):
                 L["body_raw"] = N.mk_add(before, L["iterpos"], -1)
                 L["body"] = body
             L["done"] = True
+    if any("iterpos" in L and not L.get("done") for L in loops.values()):
+        # the path left a loop from inside an iteration without a LOOPEND (an exception caught outside the loop, a return): the iterations
+        # before the one shown moved the stream by an unknown amount -- the same situation as `break`
+        return ("BREAK",), t
     amount = N.mk_add(t.final, P0(stream), -1)
     # replace each exhausted loop's single-iteration contribution by a loopsum
     for lid, L in loops.items():
